@@ -1,3 +1,4 @@
+import CCT.Lemmas.ParseWF
 import CCT.Lemmas.Canon
 /-!
 # C07 — canonical serialization: deterministic, order-independent, injective, frozen
@@ -166,7 +167,15 @@ theorem asc_of_numChar {c : Nat} (h : isNumChar c = true) : Asc c := by
   simp [isNumChar, isDigit] at h
   unfold Asc; omega
 
-theorem allAsc_serInt (z : Int) : AllAsc (serInt z) := fun c hc => asc_of_numChar ((parseNumTok_serInt z).2 c hc)
+theorem allAsc_serInt (z : Int) : AllAsc (serInt z) := by
+  cases z with
+  | ofNat n => intro c hc; exact asc_of_numChar (isDigit_numChar ((serNat_spec n).2.2.1 c hc))
+  | negSucc n =>
+    intro c hc
+    simp only [serInt, cMinus, List.mem_cons] at hc
+    rcases hc with rfl | hc
+    · unfold Asc; decide
+    · exact asc_of_numChar (isDigit_numChar ((serNat_spec (n + 1)).2.2.1 c hc))
 
 theorem allAsc_serFlt (t : Txt) (h : FltOK t) : AllAsc (serFlt t) := by
   rcases h with rfl | rfl | rfl | ⟨h1, _⟩
@@ -276,6 +285,25 @@ example : ser (.str [0xd800, 0xdc00]) = ser (.str [0x10000]) := by decide
 /-- the hypotheses are satisfiable by a non-trivial value -/
 example : (J.obj [(ps! "b", .arr [.int 1, .flt (ps! "1.5")]), (ps! "a", .obj [([233], .null)])]).WF := by
   have hf : FltOK (ps! "1.5") := Or.inr (Or.inr (Or.inr ⟨by decide, rfl⟩))
-  simp [J.WF, WFm, WFs, StrOK, hf]
+  have hi : 1 < 10 ^ maxStrDigits := within_limit 1 (by decide) (by decide)
+  simp [J.WF, WFm, WFs, StrOK, hf, hi]
+
+/-- **CPython's integer conversion limit is part of the format's domain**: an integer literal of more than 4300 digits is rejected by the
+parser (as `json.load` rejects it), so no loaded value contains such an integer; `J.WF` bounds integers accordingly -/
+theorem long_integer_literal_rejected (r : Txt) (hv : validNatTok r = true) (hl : maxStrDigits < r.length) :
+    parseNumTok r = none ∧ parseNumTok (45 :: r) = none := by
+  have hnl : ¬ r.length ≤ maxStrDigits := by omega
+  refine ⟨?_, by simp [parseNumTok, hv, hnl]⟩
+  unfold parseNumTok
+  split
+  · rename_i r' 
+    have hd := validNatTok_digits hv 45 (by simp)
+    exact absurd hd (by decide)
+  · simp [hv, hnl]
+
+/-- **parser soundness**: whatever the parser returns for text without surrogate code points (all strict UTF-8) is a well-formed value,
+and so round-trips: serializing and parsing it again gives its key-sorted form -/
+theorem parsed_roundtrips (t : Txt) (v : J) (ht : AllOK t) (h : parse t = some v) : v.WF ∧ parse (ser v) = some (canon v) :=
+  ⟨parse_wf ht h, parse_ser v (parse_wf ht h)⟩
 
 end CCT.C07
